@@ -3,6 +3,7 @@ import Req.Client.Redirect
 import Req.Client.Authority
 import Req.Client.RedirectLifetime
 import Req.Client.RedirectLoop
+import Req.Client.RedirectArgs
 /-! Driver lanes of C11 (redirect policies). -/
 namespace Req.Driver.L.C11
 open Req.Proto Req.Redirect
@@ -141,16 +142,44 @@ def decodeLifeOp (s : String) : Option (Lifetime.Op String) :=
 def decodeLifeOps (s : String) : Option (List (Lifetime.Op String)) :=
   if s == "-" then some [] else ((s.splitOn "|").mapM decodeLifeOp).map List.reverse
 
+/-! ### families of clients configured through caller-owned storage (`Req.Redirect.Args`) -/
+
+def cellsOf (ps : String) : List String := if ps == "-" then [] else ps.splitOn ";"
+
+/-- `c.<i>` | `s.<i>.<policies>` (literal arguments, `-` = none) | `a.<cells>` (the caller allocates an
+array; `nil` cells = spare capacity) | `S.<i>.<arr>.<off>.<len>` (`SetRedirectPolicy(arr[off:off+len]...)`) |
+`w.<arr>.<idx>.<policy>` (the caller writes a cell) -/
+def decodeArgOp (s : String) : Option (Args.Op String) :=
+  match s.splitOn "." with
+  | ["c", i] => i.toNat?.map .clone
+  | ["s", i, ps] => i.toNat?.map fun i => .setLit i (cellsOf ps)
+  | ["a", cells] => some (.alloc (cellsOf cells))
+  | ["S", i, a, o, l] => do
+    let i ← i.toNat?
+    let a ← a.toNat?
+    let o ← o.toNat?
+    let l ← l.toNat?
+    pure (.setSlice i ⟨a, o, l⟩)
+  | ["w", a, x, p] => do
+    let a ← a.toNat?
+    let x ← x.toNat?
+    pure (.write a x p)
+  | _ => none
+
+/-- The policy list (as text) client `j` enforces after the history (oldest first on the line). -/
+def familyPolicies (ops : String) (j : Nat) : Option (Option String) :=
+  let dec : Option (List (Args.Op String)) :=
+    if ops == "-" then some [] else (ops.splitOn "|").mapM decodeArgOp
+  dec.map fun h => ((Args.run ["max:10"] h).clients[j]?).map fun cells => ";".intercalate cells
+
 /-- `c11clone <ops> <j> <req host> <via hosts> <req headers> <via[0] headers> <probe keys>`:
 what client `j` of the family answers (client 0 = `C()`, default MaxRedirectPolicy(10)). -/
 def laneClone : List String → String
   | [ops, j, req, via, rh, vh, probes] =>
-    match decodeLifeOps ops, j.toNat? with
-    | some h, some j =>
-      match (Lifetime.run "max:10" h)[j]? with
-      | some ps => lanePolicy [ps, req, via, rh, vh, probes]
-      | none => "no-client"
-    | _, _ => "bad-op"
+    match j.toNat?.bind (familyPolicies ops) with
+    | some (some ps) => lanePolicy [ps, req, via, rh, vh, probes]
+    | some none => "no-client"
+    | none => "bad-op"
   | _ => "bad-op"
 
 def showOutcome : Outcome → String
@@ -173,12 +202,10 @@ def laneChain : List String → String
 /-- `c11clonechain <ops> <j> <h0> <targets> <initial headers> <probe keys>` -/
 def laneCloneChain : List String → String
   | [ops, j, h0, ts, ih, probes] =>
-    match decodeLifeOps ops, j.toNat? with
-    | some h, some j =>
-      match (Lifetime.run "max:10" h)[j]? with
-      | some ps => laneChain [ps, h0, ts, ih, probes]
-      | none => "no-client"
-    | _, _ => "bad-op"
+    match j.toNat?.bind (familyPolicies ops) with
+    | some (some ps) => laneChain [ps, h0, ts, ih, probes]
+    | some none => "no-client"
+    | none => "bad-op"
   | _ => "bad-op"
 
 /-! ### the whole hop loop (`Req.Redirect.Loop`) -/
@@ -371,10 +398,8 @@ def laneAlt : List String → String
 enforces. -/
 def laneFam : List String → String
   | ops :: j :: lane :: rest =>
-    match decodeLifeOps ops, j.toNat? with
-    | some h, some j =>
-      match (Lifetime.run "max:10" h)[j]? with
-      | some ps =>
+    match j.toNat?.bind (familyPolicies ops) with
+    | some (some ps) =>
         match lane with
         | "c11policyx" => lanePolicyX (ps :: rest)
         | "c11loop" => laneLoop (ps :: rest)
@@ -382,8 +407,8 @@ def laneFam : List String → String
         | "c11api" => laneApi (ps :: rest)
         | "c11apiw" => laneApiW (ps :: rest)
         | _ => "bad-op"
-      | none => "no-client"
-    | _, _ => "bad-op"
+    | some none => "no-client"
+    | none => "bad-op"
   | _ => "bad-op"
 
 end LoopLanes
